@@ -1273,7 +1273,9 @@ class disasmEngine(object):
                 break
 
             lines_cpt += 1
-            if self.lines_wd is not None and lines_cpt > self.lines_wd:
+            if (self.lines_wd is not None and lines_cpt > self.lines_wd and
+                    not in_delayslot):
+                # A delay slot is never cut from its branch
                 log_asmblock.debug("lines watchdog reached at %X", int(offset))
                 break
 
